@@ -55,10 +55,21 @@ def workspace(ctx, pid, which):
             conts = {k: v for k, v in (summ.exit if summ else {}).items() if k[0][0] == 'param' and k[1]}
             if not conts:
                 ctx.anchor_lost(rule, 'single_player_iter: containers of the workspace parameter')
+            # ... or it does not care how it finds them: a second run of the typestate analysis in which *every* function
+            # counts as using what a container holds at entry (grown / drained / observed before being emptied) tells
+            # which containers the pass needs empty when it starts; one it empties itself first is not among them
+            class _All(dict):
+                def get(self, k, d=None):
+                    return True
+            eng2 = e3.E3(lib, observe_requires=_All(), par_extend_requires=True)
+            s2 = eng2.summary(pf)
+            needs = set(s2.requires) if s2 is not None and s2.done else None
             for k, v in sorted(conts.items(), key=str):
-                ctx.verdict(v in (e3.E, e3.IN) if hasattr(e3, 'IN') else v == 'E', rule, '%s:exit:single_player_iter:%s' % (rule, '.'.join(k[1])),
-                            'the per-pass function returns with every workspace container empty (what a pass queued or cached does not survive into the next pass)', pf.where(0),
-                            'state of arg%d.%s at exit: %s' % (k[0][1], '.'.join(k[1]), {'E': 'empty', 'M': 'possibly non-empty', 'N': 'non-empty'}.get(v, v)),
+                empty_out = v in (e3.E, e3.IN)
+                own_reset = needs is not None and k not in needs
+                ctx.verdict(empty_out or own_reset, rule, '%s:exit:single_player_iter:%s' % (rule, '.'.join(k[1])),
+                            'the per-pass function returns with every workspace container empty, or empties it itself before using it (what a pass queued or cached does not survive into the next pass)', pf.where(0),
+                            'state of arg%d.%s at exit: %s; needs it empty at entry: %s' % (k[0][1], '.'.join(k[1]), {'E': 'empty', 'M': 'possibly non-empty', 'N': 'non-empty'}.get(v, v), '?' if needs is None else k in needs),
                             breaks='frontier nodes queued in one pass are dispatched in the next, off its sampled path: results depend on the thread count')
     ctx.stats['call_sites'] += eng.sites
     return eng
